@@ -42,6 +42,8 @@ fn update_stages_blocks(
     stage: wgpu::ShaderStages,
 ) {
     for statement in block.iter() {
+        #[cfg(wgsl_to_wgpu_verif)]
+        crate::verif_hooks::tick_stage_stmt();
         match statement {
             naga::Statement::Block(block) => {
                 update_stages_blocks(module, block, global_stages, stage);
@@ -75,6 +77,8 @@ fn update_stages(
     global_stages: &mut BTreeMap<String, wgpu::ShaderStages>,
     stage: wgpu::ShaderStages,
 ) {
+    #[cfg(wgsl_to_wgpu_verif)]
+    crate::verif_hooks::tick_stage_fn();
     // Search the function body to find function call statements
     update_stages_blocks(module, &function.body, global_stages, stage);
 
